@@ -57,7 +57,10 @@ var marker = templ.ComponentFunc(func(ctx context.Context, w io.Writer) error {
 `
 
 // RunnerSource is the main program of a batch: it reads one JSON job per line from stdin and
-// writes one JSON result per line. roots is generated per batch.
+// writes one JSON result per line, in order, on one goroutine (so consecutive jobs share templ's
+// buffer pools). A job may inject one fault: a writer that fails at a byte offset, a cancelled
+// context, a failing (string, error) call (args.fail) or a component parameter that fails after
+// some bytes. roots is generated per batch.
 const RunnerSource = `package main
 
 import (
@@ -67,6 +70,7 @@ import (
 	"encoding/json"
 	"errors"
 	"fmt"
+	"io"
 	"os"
 
 	"github.com/a-h/templ"
@@ -85,16 +89,69 @@ type jobArgs struct {
 type job struct {
 	K    int     ` + "`json:\"k\"`" + `
 	Args jobArgs ` + "`json:\"args\"`" + `
+	// WriterFailAt >= 0: the writer accepts that many bytes and then fails; Zero: the failing write
+	// accepts nothing (instead of the part that still fits).
+	WriterFailAt int  ` + "`json:\"writer_fail_at\"`" + `
+	Zero         bool ` + "`json:\"zero\"`" + `
+	Cancelled    bool ` + "`json:\"cancelled\"`" + `
+	// CompFailAfter >= 0: the component parameter writes that many bytes of its marker, then fails.
+	CompFailAfter int ` + "`json:\"comp_fail_after\"`" + `
+	Chunk         int ` + "`json:\"chunk\"`" + ` // > 0: the writer accepts at most that many bytes per Write call
 }
 
 type result struct {
-	Out      []byte   ` + "`json:\"out\"`" + `
-	Err      string   ` + "`json:\"err\"`" + `
-	Boom     bool     ` + "`json:\"boom\"`" + `
-	Trace    []string ` + "`json:\"trace\"`" + `
-	ErrFile  string   ` + "`json:\"err_file\"`" + `
-	ErrLine  int      ` + "`json:\"err_line\"`" + `
-	HasTemplError bool ` + "`json:\"has_templ_error\"`" + `
+	Out           []byte   ` + "`json:\"out\"`" + `
+	Err           string   ` + "`json:\"err\"`" + `
+	Boom          bool     ` + "`json:\"boom\"`" + `
+	WriterErr     bool     ` + "`json:\"writer_err\"`" + `
+	CompErr       bool     ` + "`json:\"comp_err\"`" + `
+	Canceled      bool     ` + "`json:\"canceled\"`" + `
+	Trace         []string ` + "`json:\"trace\"`" + `
+	ErrFile       string   ` + "`json:\"err_file\"`" + `
+	ErrLine       int      ` + "`json:\"err_line\"`" + `
+	HasTemplError bool     ` + "`json:\"has_templ_error\"`" + `
+	Writes        int      ` + "`json:\"writes\"`" + `
+}
+
+var errWriter = errors.New("writer failed deliberately")
+var errComp = errors.New("component failed deliberately")
+
+type faultWriter struct {
+	buf    bytes.Buffer
+	failAt int
+	zero   bool
+	failed bool
+	writes int
+}
+
+func (w *faultWriter) Write(p []byte) (int, error) {
+	w.writes++
+	if w.failed {
+		return 0, errWriter
+	}
+	if w.failAt >= 0 && w.buf.Len()+len(p) > w.failAt {
+		n := w.failAt - w.buf.Len()
+		if w.zero {
+			n = 0
+		}
+		w.buf.Write(p[:n])
+		w.failed = true
+		return n, errWriter
+	}
+	return w.buf.Write(p)
+}
+
+func failingMarker(after int) templ.Component {
+	return templ.ComponentFunc(func(ctx context.Context, w io.Writer) error {
+		const m = "<i>comp</i>"
+		if after > len(m) {
+			after = len(m)
+		}
+		if _, err := io.WriteString(w, m[:after]); err != nil {
+			return err
+		}
+		return errComp
+	})
 }
 
 func main() {
@@ -102,12 +159,12 @@ func main() {
 	sc.Buffer(make([]byte, 1<<20), 1<<26)
 	enc := json.NewEncoder(os.Stdout)
 	for sc.Scan() {
-		var j job
+		j := job{WriterFailAt: -1, CompFailAfter: -1}
 		if err := json.Unmarshal(sc.Bytes(), &j); err != nil {
 			fmt.Fprintln(os.Stderr, "bad job:", err)
 			os.Exit(3)
 		}
-		var buf bytes.Buffer
+		w := &faultWriter{failAt: j.WriterFailAt, zero: j.Zero}
 		var r result
 		Trace = nil
 		func() {
@@ -117,10 +174,23 @@ func main() {
 				}
 			}()
 			a := j.Args
-			c := roots[j.K](a.S1, a.S2, a.B1, a.B2, a.N, a.XS, a.Fail, marker)
-			if err := c.Render(context.Background(), &buf); err != nil {
+			var comp templ.Component = marker
+			if j.CompFailAfter >= 0 {
+				comp = failingMarker(j.CompFailAfter)
+			}
+			ctx := context.Background()
+			if j.Cancelled {
+				c, cancel := context.WithCancel(ctx)
+				cancel()
+				ctx = c
+			}
+			c := roots[j.K](a.S1, a.S2, a.B1, a.B2, a.N, a.XS, a.Fail, comp)
+			if err := c.Render(ctx, w); err != nil {
 				r.Err = err.Error()
 				r.Boom = errors.Is(err, errBoom)
+				r.WriterErr = errors.Is(err, errWriter)
+				r.CompErr = errors.Is(err, errComp)
+				r.Canceled = errors.Is(err, context.Canceled)
 				var te templ.Error
 				if errors.As(err, &te) {
 					r.HasTemplError = true
@@ -128,8 +198,9 @@ func main() {
 				}
 			}
 		}()
-		r.Out = buf.Bytes()
+		r.Out = w.buf.Bytes()
 		r.Trace = Trace
+		r.Writes = w.writes
 		_ = enc.Encode(r)
 	}
 }
